@@ -976,3 +976,532 @@ Theorem select_sound_plain fpb shuffle (shuffle_perm : forall l, Permutation l (
   (NoDup txos -> NoDup r) /\ (NoDup (map uid txos) -> NoDup (map uid r)) /\ incl r txos /\
   (r <> [] -> target <= sum_eff fpb r).
 Proof. intros Hc s txos. apply sound_plain. apply select_sound; assumption. Qed.
+
+Lemma NoDup_app_uid {A} (a b : list A) :
+  NoDup a -> NoDup b -> (forall x, In x a -> In x b -> False) -> NoDup (a ++ b).
+Proof.
+  induction a as [|x a IH]; simpl; intros Na Nb H; [assumption|].
+  apply NoDup_cons_iff in Na. destruct Na as [Nx Na]. constructor.
+  - rewrite in_app_iff. intros [H1|H1]; [contradiction | eapply H; eauto].
+  - apply IH; auto. intros y Hy; apply H; right; assumption.
+Qed.
+
+(* ------------------------------------------------------------------ Transaction.create *)
+Lemma mem_id_app i a b : mem_id i (a ++ b) = mem_id i a || mem_id i b.
+Proof. unfold mem_id. apply existsb_app. Qed.
+Lemma set_reserved_app flag a b w : set_reserved flag (a ++ b) w = set_reserved flag b (set_reserved flag a w).
+Proof.
+  unfold set_reserved. rewrite map_map. apply map_ext. intros [u f]; simpl. rewrite mem_id_app.
+  destruct (mem_id (uid u) a); simpl; [destruct (mem_id (uid u) b); reflexivity | reflexivity].
+Qed.
+Lemma reserve_app a b w : reserve (a ++ b) w = reserve b (reserve a w).
+Proof. unfold reserve. rewrite map_app. apply set_reserved_app. Qed.
+Lemma reserve_nil w : reserve [] w = w.
+Proof. unfold reserve, set_reserved. simpl. rewrite <- (map_id w) at 2. apply map_ext. intros [u f]; reflexivity. Qed.
+
+Lemma base_small n_in n_out : 0 <= n_in <= 252 -> 0 <= n_out <= 252 -> base_size n_in n_out = 10.
+Proof.
+  intros H1 H2. unfold base_size, compact_size.
+  destruct (n_in <? 253) eqn:A; [|lia]. destruct (n_out <? 253) eqn:B; [|lia]. reflexivity.
+Qed.
+
+Section CreateP.
+  Variables fpb fpnc : Z.
+  Variable shuffle : list utxo -> list utxo.
+  Hypothesis shuffle_perm : forall l, Permutation l (shuffle l).
+  Hypothesis fpb_nonneg : 0 <= fpb.
+  Notation eff := (eff fpb).
+  Notation sum_eff := (sum_eff fpb).
+
+  Lemma choose_from_sound s free amount :
+    let r := choose_from fpb shuffle s free amount in
+    submset r free /\ (r <> [] -> amount <= sum_eff r).
+  Proof.
+    assert (Hfee : 0 <= CHANGE_EST_SIZE * fpb) by (unfold CHANGE_EST_SIZE; lia).
+    unfold choose_from.
+    destruct s; try (apply select_sound; assumption).
+    pose proof (sqlite_sound fpb free (amount + CHANGE_EST_SIZE * fpb) (Z.min (Z.max (amount / 10) 1) 1)) as H.
+    destruct H as [H1 [H2 _]]; [lia|]. split; [assumption|]. intro Hn. specialize (H2 Hn). lia.
+  Qed.
+
+  Lemma choose_from_plain s free amount :
+    let r := choose_from fpb shuffle s free amount in
+    (NoDup (map uid free) -> NoDup (map uid r)) /\ incl r free /\ (r <> [] -> amount <= sum_eff r).
+  Proof.
+    pose proof (choose_from_sound s free amount) as H. simpl in *.
+    apply (sound_plain fpb amount) in H. tauto.
+  Qed.
+
+  Lemma sum_eff_amount l : sum_eff l = sum_amount l - zlen l * in_fee fpb.
+  Proof.
+    unfold zlen. induction l as [|u l IH]; [reflexivity|].
+    cbn [sum_eff sum_amount length]. rewrite IH. unfold eff. rewrite Nat2Z.inj_succ. lia.
+  Qed.
+  Lemma sum_in_eff_split l : sum_in_eff fpb l = sum_iamount l - sum_inp_fee fpb l.
+  Proof. induction l as [|i l IH]; simpl; lia. Qed.
+  Lemma sum_out_total_split l : sum_out_total fpb fpnc l = sum_oamount l + sum_out_fee fpb fpnc l.
+  Proof. induction l as [|o l IH]; simpl; lia. Qed.
+  Lemma zlen_app {A} (a b : list A) : zlen (a ++ b) = zlen a + zlen b.
+  Proof. unfold zlen. rewrite app_length. lia. Qed.
+  Lemma zlen_nonneg {A} (a : list A) : 0 <= zlen a.
+  Proof. unfold zlen. lia. Qed.
+
+  Variable strat : strategy.
+  Variable pre : list inp.
+  Variable outs : list outp.
+  Variable w0 : wallet.
+  Hypothesis w0_nodup : NoDup (ids_of w0).
+
+  Notation rounds := (rounds fpb shuffle strat pre outs).
+  Notation cost0 := (cost0 fpb fpnc pre outs).
+  Notation payment0 := (payment0 fpb pre).
+
+  Definition good_added (added : list utxo) : Prop :=
+    (forall u, In u added -> In (u, false) w0) /\ NoDup (map uid added).
+
+  Lemma good_nil : good_added [].
+  Proof. split; [intros u [] | constructor]. Qed.
+
+  Lemma selection_step added amount :
+    good_added added ->
+    let sel := spendable fpb shuffle strat (reserve added w0) amount in
+    good_added (added ++ sel) /\ (sel <> [] -> amount <= sum_eff sel).
+  Proof.
+    intros [G1 G2] sel. unfold sel, spendable.
+    pose proof (choose_from_plain strat (unreserved (reserve added w0)) amount) as [C1 [C2 C3]].
+    assert (Hnd : NoDup (map uid (unreserved (reserve added w0)))).
+    { apply NoDup_unreserved. unfold reserve. rewrite ids_set_reserved. assumption. }
+    specialize (C1 Hnd). split; [|assumption].
+    assert (Hfree : forall u, In u (choose_from fpb shuffle strat (unreserved (reserve added w0)) amount) ->
+                              In (u, false) w0 /\ ~ In (uid u) (map uid added)).
+    { intros u Hu. apply C2 in Hu. apply in_unreserved in Hu. unfold reserve in Hu. apply in_set_reserved in Hu.
+      destruct Hu as [Hu|[Hu _]]; [assumption | discriminate]. }
+    split.
+    - intros u Hu. apply in_app_iff in Hu. destruct Hu as [Hu|Hu]; [apply G1; assumption | apply Hfree; assumption].
+    - rewrite map_app. apply NoDup_app_uid; [assumption | assumption|].
+      intros x Hx1 Hx2. apply in_map_uid in Hx2. destruct Hx2 as [u [Hu E]]. subst x. apply (Hfree u Hu). assumption.
+  Qed.
+
+  (* shape of every outcome of the loop *)
+  Lemma rounds_shape : forall k added payment cost,
+    good_added added ->
+    match rounds k (reserve added w0) added payment cost with
+    | Ok added' ch w' => good_added added' /\ w' = reserve added' w0 /\ exists ext, added' = added ++ ext
+    | Refused w' => exists added1 deficit,
+        good_added added1 /\ 0 < deficit /\ spendable fpb shuffle strat (reserve added1 w0) deficit = [] /\
+        w' = release (map iid pre ++ map uid added1) (reserve added1 w0)
+    end.
+  Proof.
+    induction k as [|k IH]; intros added payment cost G; cbn [C03.rounds].
+    - split; [assumption|]. split; [reflexivity|]. exists []. rewrite app_nil_r. reflexivity.
+    - assert (Tail : forall added1 payment1, good_added added1 -> (exists e, added1 = added ++ e) ->
+        match (let coc := cost_of_change fpb pre outs (zlen added1) in
+               let change_amount := payment1 - cost - coc in
+               if (payment1 >? cost) && (change_amount >? DUST) then Ok added1 (Some change_amount) (reserve added1 w0)
+               else if nonempty outs then Ok added1 None (reserve added1 w0)
+               else rounds k (reserve added1 w0) added1 payment1 (cost + coc + 1)) with
+        | Ok added' ch w' => good_added added' /\ w' = reserve added' w0 /\ exists ext, added' = added ++ ext
+        | Refused w' => exists added2 deficit,
+            good_added added2 /\ 0 < deficit /\ spendable fpb shuffle strat (reserve added2 w0) deficit = [] /\
+            w' = release (map iid pre ++ map uid added2) (reserve added2 w0)
+        end).
+      { intros added1 payment1 G1 [e He]. cbv zeta.
+        destruct ((payment1 >? cost) && _); [split; [assumption|]; split; [reflexivity | exists e; assumption]|].
+        destruct (nonempty outs); [split; [assumption|]; split; [reflexivity | exists e; assumption]|].
+        specialize (IH added1 payment1 (cost + cost_of_change fpb pre outs (zlen added1) + 1) G1).
+        destruct (rounds k _ _ _ _); [|assumption].
+        destruct IH as [I1 [I2 [e2 I3]]]. split; [assumption|]. split; [assumption|].
+        exists (e ++ e2). rewrite I3, He, app_assoc. reflexivity. }
+      destruct (payment <? cost) eqn:Hpc.
+      + pose proof (selection_step added (cost - payment) G) as [S1 S2].
+        destruct (nonempty (spendable fpb shuffle strat (reserve added w0) (cost - payment))) eqn:Hne.
+        * rewrite <- reserve_app. apply Tail; [assumption | eexists; reflexivity].
+        * apply nonempty_false in Hne. exists added, (cost - payment). repeat split; try assumption; try apply G. lia.
+      + apply Tail; [assumption | exists []; rewrite app_nil_r; reflexivity].
+  Qed.
+
+  (* after release_tx nothing the build touched is reserved and nothing else changed *)
+  Lemma release_reserve added :
+    good_added added ->
+    release (map iid pre ++ map uid added) (reserve added w0) = release (map iid pre) w0.
+  Proof.
+    intros [G1 G2]. unfold release, reserve, set_reserved. rewrite map_map.
+    apply map_ext_in. intros [u f] He. simpl.
+    destruct (mem_id (uid u) (map uid added)) eqn:M; simpl; rewrite mem_id_app.
+    - rewrite M. rewrite orb_true_r.
+      apply mem_id_true in M. apply in_map_uid in M. destruct M as [u2 [Hu2 E]].
+      apply G1 in Hu2. destruct (ids_unique w0 u2 false u f w0_nodup Hu2 He E) as [_ <-].
+      destruct (mem_id (uid u) (map iid pre)); reflexivity.
+    - rewrite M. rewrite orb_false_r. reflexivity.
+  Qed.
+
+  (* ---- the arithmetic of the balancing loop *)
+  Definition CC : Z := (10 + CHANGE_EST_SIZE) * fpb.      (* cost_of_change while both counts fit one byte *)
+
+  Lemma coc_small n_added :
+    0 <= n_added -> zlen pre + n_added <= 252 -> zlen outs <= 252 ->
+    cost_of_change fpb pre outs n_added = CC.
+  Proof.
+    intros H0 H1 H2. unfold cost_of_change, CC. rewrite base_small; [lia | | ]; pose proof (zlen_nonneg pre); pose proof (zlen_nonneg outs); lia.
+  Qed.
+
+  Lemma coc_nonneg n : 0 <= cost_of_change fpb pre outs n.
+  Proof.
+    unfold cost_of_change, base_size, compact_size, CHANGE_EST_SIZE.
+    destruct (_ <? 253); destruct (_ <? 253); repeat (destruct (_ <=? _)); nia.
+  Qed.
+
+  Lemma fee_identity added ch :
+    zlen pre + zlen added <= 252 -> zlen outs + change_count ch <= 252 -> zlen outs <= 252 ->
+    tx_fee pre outs added ch - required_fee fpb fpnc pre outs added ch =
+    (payment0 + sum_eff added) - cost0 - change_value ch - change_count ch * (P2PKH_SIZE * fpb).
+  Proof.
+    intros H1 H2 H3. unfold tx_fee, required_fee, C03.cost0, C03.payment0.
+    pose proof (zlen_nonneg pre); pose proof (zlen_nonneg outs); pose proof (zlen_nonneg added).
+    assert (0 <= change_count ch <= 1) by (destruct ch; simpl; lia).
+    rewrite !base_small by lia.
+    rewrite sum_eff_amount, sum_in_eff_split, sum_out_total_split. lia.
+  Qed.
+
+  Definition entry_ok (k : nat) (payment cost : Z) : Prop :=
+    cost - cost0 = (5 - Z.of_nat k) * (CC + 1) /\
+    (k = 5%nat \/ cost - (CC + 1) <= payment <= cost + DUST - 1).
+
+  Lemma rounds_fee : forall k added payment cost added' ch w',
+    good_added added -> payment = payment0 + sum_eff added -> (k <= 5)%nat -> entry_ok k payment cost ->
+    rounds k (reserve added w0) added payment cost = Ok added' ch w' ->
+    zlen pre + zlen added' <= 252 -> zlen outs <= 251 ->
+    let fee := tx_fee pre outs added' ch in
+    let req := required_fee fpb fpnc pre outs added' ch in
+    req <= fee <= req + 5 * CC + DUST + 4.
+  Proof.
+    assert (HCC : 0 <= CC) by (unfold CC, CHANGE_EST_SIZE; lia).
+    induction k as [|k IH]; intros added payment cost added' ch w' G Hpay Hk [E1 E2] Hr Hin Hout; cbn [C03.rounds] in Hr.
+    - inversion Hr; subst. cbv zeta.
+      pose proof (fee_identity added' None Hin ltac:(simpl; lia) ltac:(lia)) as F. cbn [change_value change_count] in F.
+      destruct E2 as [E2|E2]; [discriminate|]. unfold DUST in *. lia.
+    - (* the state after the optional selection *)
+      assert (Hm : 0 <= (5 - Z.of_nat (S k)) * (CC + 1) <= 4 * (CC + 1)) by nia.
+      assert (Tail : forall added1 payment1, good_added added1 -> payment1 = payment0 + sum_eff added1 -> cost <= payment1 ->
+        (let coc := cost_of_change fpb pre outs (zlen added1) in
+         let change_amount := payment1 - cost - coc in
+         if (payment1 >? cost) && (change_amount >? DUST) then Ok added1 (Some change_amount) (reserve added1 w0)
+         else if nonempty outs then Ok added1 None (reserve added1 w0)
+         else rounds k (reserve added1 w0) added1 payment1 (cost + coc + 1)) = Ok added' ch w' ->
+        let fee := tx_fee pre outs added' ch in
+        let req := required_fee fpb fpnc pre outs added' ch in
+        req <= fee <= req + 5 * CC + DUST + 4).
+      { intros added1 payment1 G1 Hp1 Hge Hres. cbv zeta in Hres.
+        assert (Hlen1 : zlen added1 <= zlen added').
+        { destruct ((payment1 >? cost) && _); [inversion Hres; subst; lia|].
+          destruct (nonempty outs); [inversion Hres; subst; lia|].
+          pose proof (rounds_shape k added1 payment1 (cost + cost_of_change fpb pre outs (zlen added1) + 1) G1) as Sh.
+          rewrite Hres in Sh. destruct Sh as [_ [_ [e ->]]]. rewrite zlen_app. pose proof (zlen_nonneg e). lia. }
+        rewrite coc_small in Hres by (pose proof (zlen_nonneg added1); lia).
+        destruct ((payment1 >? cost) && (payment1 - cost - CC >? DUST)) eqn:Hch.
+        - inversion Hres; subst. cbv zeta.
+          pose proof (fee_identity added' (Some (payment0 + sum_eff added' - cost - CC)) Hin ltac:(simpl; lia) ltac:(lia)) as F.
+          cbn [change_value change_count] in F. unfold CC, CHANGE_EST_SIZE, P2PKH_SIZE, DUST in *. lia.
+        - assert (Hsmall : payment1 - cost <= CC + DUST).
+          { apply andb_false_iff in Hch. unfold DUST in *. destruct Hch; lia. }
+          destruct (nonempty outs).
+          + inversion Hres; subst. cbv zeta.
+            pose proof (fee_identity added' None Hin ltac:(simpl; lia) ltac:(lia)) as F. cbn [change_value change_count] in F.
+            unfold DUST in *. lia.
+          + apply (IH added1 payment1 (cost + CC + 1) added' ch w'); try assumption; try lia.
+            split; [lia|]. right. unfold DUST in *. lia. }
+      destruct (payment <? cost) eqn:Hpc.
+      + pose proof (selection_step added (cost - payment) G) as [S1 S2].
+        destruct (nonempty (spendable fpb shuffle strat (reserve added w0) (cost - payment))) eqn:Hne; [|discriminate].
+        apply nonempty_true in Hne. specialize (S2 Hne).
+        rewrite <- reserve_app in Hr. apply Tail in Hr; try assumption.
+        * rewrite sum_eff_app. lia.
+        * lia.
+      + apply Tail in Hr; try assumption. lia.
+  Qed.
+
+End CreateP.
+
+Lemma release_after_reserve ids w : release ids (set_reserved true ids w) = release ids w.
+Proof.
+  unfold release, set_reserved. rewrite map_map. apply map_ext. intros [u f]; simpl.
+  destruct (mem_id (uid u) ids) eqn:M; simpl; rewrite M; reflexivity.
+Qed.
+
+Section CreateT.
+  Variables fpb fpnc : Z.
+  Variable shuffle : list utxo -> list utxo.
+  Hypothesis shuffle_perm : forall l, Permutation l (shuffle l).
+  Hypothesis fpb_nonneg : 0 <= fpb.
+  Variable strat : strategy.
+  Variable pre : list inp.
+  Variable outs : list outp.
+  Variable w0 : wallet.
+  Hypothesis w0_nodup : NoDup (ids_of w0).
+  Notation eff := (eff fpb).
+  Notation sum_eff := (sum_eff fpb).
+  Notation cost0 := (cost0 fpb fpnc pre outs).
+  Notation payment0 := (payment0 fpb pre).
+  Notation create := (create fpb fpnc shuffle strat pre outs).
+
+  (* the wallet once the pre-chosen inputs are reserved *)
+  Definition w1 : wallet := set_reserved true (map iid pre) w0.
+
+  Lemma w1_nodup : NoDup (ids_of w1).
+  Proof. unfold w1. rewrite ids_set_reserved. assumption. Qed.
+
+  Lemma w1_free u : In u (unreserved w1) <-> In u (unreserved w0) /\ ~ In (uid u) (map iid pre).
+  Proof.
+    rewrite !in_unreserved. unfold w1. rewrite in_set_reserved. split.
+    - intros [H|[H _]]; [assumption | discriminate].
+    - intro H. left. assumption.
+  Qed.
+
+  Theorem create_ok added ch w' :
+    create w0 = Ok added ch w' ->
+    NoDup (map uid added) /\
+    (forall u, In u added -> In u (unreserved w0) /\ ~ In (uid u) (map iid pre)) /\
+    (NoDup (map iid pre) -> NoDup (map iid pre ++ map uid added)) /\
+    w' = reserve added w1 /\
+    (zlen pre + zlen added <= 252 -> zlen outs <= 251 ->
+     required_fee fpb fpnc pre outs added ch <= tx_fee pre outs added ch
+       <= required_fee fpb fpnc pre outs added ch + 5 * CC fpb + DUST + 4).
+  Proof.
+    unfold C03.create. fold w1. intro H. rewrite <- (reserve_nil w1) in H.
+    pose proof (rounds_shape fpb shuffle shuffle_perm fpb_nonneg strat pre outs w1 w1_nodup 5 [] payment0 cost0 (good_nil w1)) as Sh.
+    rewrite H in Sh. destruct Sh as [[G1 G2] [Hw _]].
+    assert (Hfree : forall u, In u added -> In u (unreserved w0) /\ ~ In (uid u) (map iid pre)).
+    { intros u Hu. apply w1_free. apply in_unreserved. apply G1; assumption. }
+    split; [assumption|]. split; [assumption|]. split; [|split; [assumption|]].
+    - intro Hp. apply NoDup_app_uid; [assumption | assumption|].
+      intros x Hx1 Hx2. apply in_map_uid in Hx2. destruct Hx2 as [u [Hu E]]. subst x. apply (Hfree u Hu). assumption.
+    - intros Hin Hout.
+      apply (rounds_fee fpb fpnc shuffle shuffle_perm fpb_nonneg strat pre outs w1 w1_nodup 5 [] payment0 cost0 added ch w' (good_nil w1));
+        try assumption; try (simpl; lia).
+      split; [simpl; lia | left; reflexivity].
+  Qed.
+
+  Theorem create_refused w' :
+    create w0 = Refused w' ->
+    w' = release (map iid pre) w0 /\
+    exists held deficit, NoDup (map uid held) /\
+      (forall u, In u held -> In u (unreserved w0) /\ ~ In (uid u) (map iid pre)) /\
+      0 < deficit /\ spendable fpb shuffle strat (reserve held w1) deficit = [].
+  Proof.
+    unfold C03.create. fold w1. intro H. rewrite <- (reserve_nil w1) in H.
+    pose proof (rounds_shape fpb shuffle shuffle_perm fpb_nonneg strat pre outs w1 w1_nodup 5 [] payment0 cost0 (good_nil w1)) as Sh.
+    rewrite H in Sh. destruct Sh as [added1 [deficit [G [Hd [Hs Hw]]]]].
+    split.
+    - rewrite Hw. rewrite (release_reserve pre w1 w1_nodup added1 G). unfold w1. apply release_after_reserve.
+    - exists added1, deficit. destruct G as [G1 G2]. repeat split; try assumption;
+        apply (proj1 (w1_free u)); apply in_unreserved; apply G1; assumption.
+  Qed.
+
+  (* with requested outputs the loop body runs once: the exact selection, the exact change rule and the
+     exact condition for a refusal *)
+  Theorem create_with_outputs :
+    outs <> [] ->
+    let deficit := cost0 - payment0 in
+    let sel := if payment0 <? cost0 then spendable fpb shuffle strat w1 deficit else [] in
+    let surplus := payment0 + sum_eff sel - cost0 in
+    let coc := cost_of_change fpb pre outs (zlen sel) in
+    match create w0 with
+    | Refused w' => 0 < deficit /\ sel = [] /\ w' = release (map iid pre) w0
+    | Ok added ch w' =>
+        added = sel /\ (0 < deficit -> sel <> []) /\ w' = reserve sel w1 /\ 0 <= surplus /\
+        match ch with
+        | Some c => c = surplus - coc /\ DUST < c
+        | None => surplus - coc <= DUST
+        end
+    end.
+  Proof.
+    intros Hne. cbv zeta.
+    pose proof (create_refused) as CR.
+    unfold C03.create in *. fold w1 in *. cbn [C03.rounds].
+    assert (Hno : nonempty outs = true) by (destruct outs; [congruence | reflexivity]).
+    destruct (payment0 <? cost0) eqn:Hpc.
+    - pose proof (selection_step fpb shuffle shuffle_perm fpb_nonneg strat w1 w1_nodup [] (cost0 - payment0) (good_nil w1)) as [_ S2].
+      rewrite reserve_nil in S2.
+      destruct (nonempty (spendable fpb shuffle strat w1 (cost0 - payment0))) eqn:Hs.
+      + apply nonempty_true in Hs. specialize (S2 Hs). simpl app. unfold DUST in *.
+        pose proof (coc_nonneg fpb fpb_nonneg pre outs (zlen (spendable fpb shuffle strat w1 (cost0 - payment0)))) as Hcoc.
+        destruct ((_ >? cost0) && _) eqn:Hch.
+        * apply andb_prop in Hch. destruct Hch as [H1 H2].
+          split; [reflexivity|]. split; [intros _; assumption|]. split; [reflexivity|]. split; [lia|]. split; [reflexivity | lia].
+        * rewrite Hno. apply andb_false_iff in Hch.
+          split; [reflexivity|]. split; [intros _; assumption|]. split; [reflexivity|]. split; [lia|]. destruct Hch; lia.
+      + apply nonempty_false in Hs. split; [lia|]. split; [assumption|].
+        specialize (CR (release (map iid pre ++ map uid []) w1)). cbn [C03.rounds] in CR. rewrite Hpc in CR.
+        assert (Hs' : nonempty (spendable fpb shuffle strat w1 (cost0 - payment0)) = false) by (rewrite Hs; reflexivity).
+        rewrite Hs' in CR. destruct (CR eq_refl) as [E _]. exact E.
+    - simpl sum_eff. change (zlen (@nil utxo)) with 0. unfold DUST in *.
+      pose proof (coc_nonneg fpb fpb_nonneg pre outs 0) as Hcoc.
+      replace (payment0 + 0) with payment0 by lia.
+      destruct ((payment0 >? cost0) && _) eqn:Hch.
+      + apply andb_prop in Hch. destruct Hch as [H1 H2].
+        split; [reflexivity|]. split; [intros; lia|]. split; [rewrite reserve_nil; reflexivity|]. split; [lia|]. split; [reflexivity | lia].
+      + rewrite Hno. apply andb_false_iff in Hch.
+        split; [reflexivity|]. split; [intros; lia|]. split; [rewrite reserve_nil; reflexivity|]. split; [lia|]. destruct Hch; lia.
+  Qed.
+
+  Theorem create_total w : (exists a c w', C03.create fpb fpnc shuffle strat pre outs w = Ok a c w') \/
+                           (exists w', C03.create fpb fpnc shuffle strat pre outs w = Refused w').
+  Proof. destruct (C03.create fpb fpnc shuffle strat pre outs w); [left | right]; eauto. Qed.
+End CreateT.
+
+
+(* ------------------------------------------------------------------ what an empty answer of the ledger means *)
+Theorem choose_from_complete fpb shuffle (shuffle_perm : forall l, Permutation l (shuffle l)) :
+  0 <= fpb -> forall s free d,
+  0 < d -> (forall u, In u free -> 0 < eff fpb u) -> (N.of_nat (length free) < MAXIMUM_TRIES)%N ->
+  let fee := CHANGE_EST_SIZE * fpb in
+  let r := choose_from fpb shuffle s free d in
+  match s with
+  | Standard | PreferConfirmed => r = [] <-> sum_eff fpb free < d
+  | OnlyConfirmed => r = [] <-> sum_eff fpb (filter (fun u => uheight u >? 0) free) < d
+  | ClosestMatch => r = [] <-> forall u, In u free -> eff fpb u < d + fee
+  | RandomDraw => r = [] <-> sum_eff fpb free < d + fee
+  | BranchAndBound => (r <> [] -> d <= sum_eff fpb r <= d + fee) /\ (d <= sum_eff fpb free <= d + fee -> r <> [])
+  | Sqlite => (forall u, In u free -> utype0 u = true -> uamount u < SQ_REACH) ->
+              (r = [] <-> sum_eff fpb (filter utype0 free) < d + fee)
+  end.
+Proof.
+  intros Hfpb s free d Hd Hpos Hlen. cbv zeta.
+  assert (Hfee : 0 <= CHANGE_EST_SIZE * fpb) by (unfold CHANGE_EST_SIZE; lia).
+  destruct s; unfold choose_from.
+  - intro Hreach. replace (Z.min (Z.max (d / 10) 1) 1) with 1 by lia.
+    apply sqlite_complete_partial; try assumption; try lia.
+  - exact (select_complete fpb shuffle shuffle_perm d (CHANGE_EST_SIZE * fpb) Hfee Hd PreferConfirmed free Hpos Hlen).
+  - exact (select_complete fpb shuffle shuffle_perm d (CHANGE_EST_SIZE * fpb) Hfee Hd OnlyConfirmed free Hpos Hlen).
+  - exact (select_complete fpb shuffle shuffle_perm d (CHANGE_EST_SIZE * fpb) Hfee Hd Standard free Hpos Hlen).
+  - exact (select_complete fpb shuffle shuffle_perm d (CHANGE_EST_SIZE * fpb) Hfee Hd BranchAndBound free Hpos Hlen).
+  - exact (select_complete fpb shuffle shuffle_perm d (CHANGE_EST_SIZE * fpb) Hfee Hd ClosestMatch free Hpos Hlen).
+  - exact (select_complete fpb shuffle shuffle_perm d (CHANGE_EST_SIZE * fpb) Hfee Hd RandomDraw free Hpos Hlen).
+Qed.
+
+Theorem sqlite_sound_plain fpb rows a floor :
+  0 <= floor ->
+  let r := sqlite_select fpb rows a floor in
+  (NoDup rows -> NoDup r) /\ (NoDup (map uid rows) -> NoDup (map uid r)) /\ incl r rows /\
+  (r <> [] -> a <= sum_eff fpb r) /\ (forall u, In u r -> utype0 u = true).
+Proof.
+  intros Hf. cbv zeta. pose proof (sqlite_sound fpb rows a floor Hf) as [S1 [S2 S3]].
+  pose proof (sound_plain fpb a rows (sqlite_select fpb rows a floor) (conj S1 S2)) as [P1 [P2 [P3 P4]]].
+  repeat split; assumption.
+Qed.
+
+(* ------------------------------------------------------------------ non-vacuity material *)
+Definition ex_u (i : N) (amount : Z) : utxo := mkU i amount 5 true true i.
+Definition ex_wallet : wallet :=
+  [(ex_u 1 100000000, false); (ex_u 2 100000000, false); (ex_u 3 300000000, false);
+   (ex_u 4 500000000, false); (ex_u 5 1000000000, false)].
+Definition ex_id (l : list utxo) : list utxo := l.
+Lemma ex_id_perm l : Permutation l (ex_id l).
+Proof. apply Permutation_refl. Qed.
+
+Lemma release_not_reserved ids w i : In i ids -> ~ In i (reserved_ids (release ids w)).
+Proof.
+  intros Hi Hr. apply in_reserved_ids in Hr. destruct Hr as [u [Hu E]]. unfold release in Hu.
+  apply in_set_reserved in Hu. destruct Hu as [[_ Hn]|[Hf _]]; [subst; contradiction | discriminate].
+Qed.
+
+Theorem release_on_failure fpb fpnc shuffle (shuffle_perm : forall l, Permutation l (shuffle l)) :
+  0 <= fpb -> forall strat pre outs w0, NoDup (map (fun e : utxo * bool => uid (fst e)) w0) -> forall w',
+  create fpb fpnc shuffle strat pre outs w0 = Refused w' ->
+  w' = release (map iid pre) w0 /\ (forall i, In i (map iid pre) -> ~ In i (reserved_ids w')) /\
+  (forall i, In i (reserved_ids w') -> In i (reserved_ids w0)).
+Proof.
+  intros Hf strat pre outs w0 Hn w' H.
+  destruct (create_refused fpb fpnc shuffle shuffle_perm Hf strat pre outs w0 Hn w' H) as [E _]. subst w'.
+  split; [reflexivity|]. split; [intros i Hi; apply release_not_reserved; assumption|].
+  intros i Hi. apply in_reserved_ids in Hi. destruct Hi as [u [Hu E]]. apply in_reserved_ids. exists u. split; [|assumption].
+  unfold release in Hu. apply in_set_reserved in Hu. destruct Hu as [[Hu _]|[Hu _]]; [assumption | discriminate].
+Qed.
+
+Theorem select_complete_five fpb shuffle (shuffle_perm : forall l, Permutation l (shuffle l)) :
+  0 <= fpb -> forall s free d,
+  0 < d -> (forall u, In u free -> 0 < eff fpb u) -> (N.of_nat (length free) < MAXIMUM_TRIES)%N ->
+  let fee := CHANGE_EST_SIZE * fpb in
+  let r := choose_from fpb shuffle s free d in
+  match s with
+  | Standard | PreferConfirmed => r = [] <-> sum_eff fpb free < d
+  | OnlyConfirmed => r = [] <-> sum_eff fpb (filter (fun u => uheight u >? 0) free) < d
+  | ClosestMatch => r = [] <-> forall u, In u free -> eff fpb u < d + fee
+  | RandomDraw => r = [] <-> sum_eff fpb free < d + fee
+  | BranchAndBound | Sqlite => True
+  end.
+Proof.
+  intros Hf s free d Hd Hp Hl. pose proof (choose_from_complete fpb shuffle shuffle_perm Hf s free d Hd Hp Hl) as H.
+  destruct s; try exact H; exact I.
+Qed.
+
+Theorem bnb_complete_partial fpb shuffle (shuffle_perm : forall l, Permutation l (shuffle l)) :
+  0 <= fpb -> forall free d,
+  0 < d -> (forall u, In u free -> 0 < eff fpb u) -> (N.of_nat (length free) < MAXIMUM_TRIES)%N ->
+  let fee := CHANGE_EST_SIZE * fpb in
+  let r := choose_from fpb shuffle BranchAndBound free d in
+  (r <> [] -> d <= sum_eff fpb r <= d + fee) /\ (d <= sum_eff fpb free <= d + fee -> r <> []).
+Proof.
+  intros Hf free d Hd Hp Hl. exact (choose_from_complete fpb shuffle shuffle_perm Hf BranchAndBound free d Hd Hp Hl).
+Qed.
+
+Theorem sqlite_ledger_complete_partial fpb shuffle (shuffle_perm : forall l, Permutation l (shuffle l)) :
+  0 <= fpb -> forall free d,
+  0 < d -> (forall u, In u free -> 0 < eff fpb u) -> (N.of_nat (length free) < MAXIMUM_TRIES)%N ->
+  (forall u, In u free -> utype0 u = true -> uamount u < 92233720369) ->
+  (choose_from fpb shuffle Sqlite free d = [] <-> sum_eff fpb (filter utype0 free) < d + CHANGE_EST_SIZE * fpb).
+Proof.
+  intros Hf free d Hd Hp Hl. exact (choose_from_complete fpb shuffle shuffle_perm Hf Sqlite free d Hd Hp Hl).
+Qed.
+
+(* the windows really stop short: one confirmed output of 2 000 000 LBC, asked for 1 LBC *)
+Lemma sqlite_reach_is_real :
+  sqlite_select 50 [ex_u 1 200000000000000] 100002300 1 = [] /\ 100002300 <= sum_eff 50 [ex_u 1 200000000000000].
+Proof. vm_compute. split; [reflexivity | discriminate]. Qed.
+
+Lemma ex_pay :
+  match create 50 0 ex_id Standard [] [mkO 300000000 34 None] ex_wallet with
+  | Ok added ch w' => map uid added = [4%N] /\ ch = Some 199987600 /\ reserved_ids w' = [4%N]
+  | Refused _ => False
+  end.
+Proof. vm_compute. repeat split. Qed.
+Lemma ex_exact :
+  match create 50 0 ex_id Standard [] [mkO 299990400 34 None] ex_wallet with
+  | Ok added ch w' => map uid added = [3%N] /\ ch = None
+  | Refused _ => False
+  end.
+Proof. vm_compute. repeat split. Qed.
+Lemma ex_refuse :
+  create 50 0 ex_id Standard [] [mkO 100000000000 34 None] ex_wallet = Refused ex_wallet.
+Proof. vm_compute. reflexivity. Qed.
+Lemma ex_positive : forall u, In u (unreserved ex_wallet) -> 0 < eff 50 u.
+Proof. intros u H. vm_compute in H. repeat (destruct H as [<-|H]; [vm_compute; reflexivity|]). destruct H. Qed.
+Lemma ex_nodup : NoDup (map (fun e : utxo * bool => uid (fst e)) ex_wallet).
+Proof. vm_compute. repeat constructor; simpl; intuition discriminate. Qed.
+
+(* txos[len(current_selection)] in branch_and_bound is never out of range: in every state that satisfies the
+   loop invariant (the initial state does, every iteration preserves it: bnb_loop_result) the branch that
+   reads it is only taken while undecided outputs are left *)
+Lemma bnb_index_in_range fpb target coc txos cv ca done rest :
+  state_inv fpb txos cv ca done rest ->
+  (cv + ca <? target) || (cv >? target + coc) = false -> (cv >=? target) = false -> rest <> [].
+Proof.
+  intros [_ [Ica _]] H1 H2 ->. simpl in Ica. apply orb_false_elim in H1. destruct H1 as [H1 _]. lia.
+Qed.
+
+(* ------------------------------------------------------------------ the repaired defect, machine-checked *)
+(* before `fix: Transaction.create reserves the pre-chosen inputs before funding` a pre-chosen input that is
+   an unreserved wallet output could be selected again: outpoint 1 ends up twice in the transaction *)
+Definition dup_wallet : wallet := [(ex_u 1 11400, false); (ex_u 2 100007400, false)].
+Lemma create_old_refuted :
+  match create_old 50 0 ex_id Standard [mkI 1 11400 148] [] dup_wallet with
+  | Ok added _ _ => In 1%N (map iid [mkI 1 11400 148]) /\ In 1%N (map uid added)
+  | Refused _ => False
+  end.
+Proof. vm_compute. split; left; reflexivity. Qed.
+Lemma create_repaired_ex :
+  match create 50 0 ex_id Standard [mkI 1 11400 148] [] dup_wallet with
+  | Ok added ch w' => map uid added = [2%N] /\ reserved_ids w' = [1%N; 2%N]
+  | Refused _ => False
+  end.
+Proof. vm_compute. split; reflexivity. Qed.
